@@ -58,7 +58,7 @@ func c11Run(c *fw.Ctx) {
 	const V = 60 * time.Second
 	envs := &envCache{}
 	defer envs.close()
-	dirAnswers := []string{"in-listed-group", "in-no-group", "directory-error", "in-group-named-with-listed-name-as-prefix", "in-group-whose-name-is-a-prefix-of-listed"}
+	dirAnswers := []string{"in-listed-group", "in-no-group", "directory-error", "in-group-named-with-listed-name-as-prefix", "in-group-whose-name-is-a-prefix-of-listed", "directory-unavailable-503", "directory-rate-limited-429"}
 
 	drive(c, "stages", -1, func(x *explore.Exec, owned bool) {
 		va, vd, vg := x.Choose("addr-rule", 4), x.Choose("dom-rule", 4), x.Choose("grp-rule", 4)
@@ -84,6 +84,12 @@ func c11Run(c *fw.Ctx) {
 				return ans(200, `{"email":"x","groups":["eng-contractors","engineering"]}`)
 			case "in-group-whose-name-is-a-prefix-of-listed":
 				return ans(200, `{"email":"x","groups":["en","e"]}`)
+			}
+			if dir == "directory-unavailable-503" {
+				return ans(503, "unavailable")
+			}
+			if dir == "directory-rate-limited-429" {
+				return ans(429, "slow down")
 			}
 			return ans(500, "directory unavailable")
 		}
@@ -152,7 +158,7 @@ func c11Run(c *fw.Ctx) {
 			if v == "-" {
 				continue
 			}
-			if i == 2 && dir == "directory-error" && len(p.Groups) > 0 && !(len(p.Groups) == 1 && p.Groups[0] == "*") {
+			if i == 2 && strings.HasPrefix(dir, "directory-") && len(p.Groups) > 0 && !(len(p.Groups) == 1 && p.Groups[0] == "*") {
 				continue // a revalidation that cannot confirm membership refuses (C04); not a rule verdict
 			}
 			if i > 0 && verdict[0] == "admitted" {
@@ -244,7 +250,7 @@ func init() {
 	fw.Register(&fw.Check{
 		ID:    "C11",
 		Level: "exploration",
-		Rule: "full product on a proxy built like cmd/sso-proxy (validators exactly as proxy.New builds them): rule sets = every combination of {absent, listed value, lone *, * with another value} for addresses, domains and groups (63 policies) x 14 emails (exact, case-varied, prefix/suffix look-alikes, look-alike domain, sub-domain, domain as prefix, unlisted, two @, empty local part, non-ASCII local part / domain) x directory {in listed group, in none, error, only in groups whose names extend a listed name, only in groups whose names are prefixes of a listed name}; " +
+		Rule: "full product on a proxy built like cmd/sso-proxy (validators exactly as proxy.New builds them): rule sets = every combination of {absent, listed value, lone *, * with another value} for addresses, domains and groups (63 policies) x 14 emails (exact, case-varied, prefix/suffix look-alikes, look-alike domain, sub-domain, domain as prefix, unlisted, two @, empty local part, non-ASCII local part / domain) x directory {in listed group, in none, error 500, unavailable 503, rate-limited 429, only in groups whose names extend a listed name, only in groups whose names are prefixes of a listed name}; " +
 			"each case logs in through the real callback, sends a request while no check is due and one after the validity TTL; oracle = the documented any-of semantics and the same verdict at all three stages (emails whose reading the statement leaves open: consistency only); " +
 			"distinct_nontrivial = distinct (rule set, email class, directory, verdict triple) among cases admitted at login",
 		Assumptions:    []string{"a revalidation whose directory lookup fails refuses regardless of the rules (C04), so that stage is not compared when the directory errors"},
